@@ -174,7 +174,7 @@ def run(ctx):
                 ctx.violation('live: no Period listed', inp)
             if len(listed) >= 2:
                 ctx.nontriv(('live', d['name'], secs, depth))
-        init_dd = {}
+        init_dd, pstart = {}, {}
         # ------------------------------------------------ media inside each period (vod)
         for p, ppk in zip(d['periods'], pks):
             for name in [VIDEO[p['stream']]] + ([AUDIO[p['stream']]] if len(p['tracks']) > 1 else []):
@@ -196,6 +196,7 @@ def run(ctx):
                     ctx.violation('init segment of %s in period %s answers %d' % (name, p['pid'], ri.status_code), {'def': d})
                 dd = boxwalk.trex_default_duration(boxwalk.Root(ri.data)) if ri.status_code == 200 else None
                 init_dd['/mps/vod/%s/%d/%s' % (d['name'], ppk, name)] = dd
+                pstart['/mps/vod/%s/%d/%s' % (d['name'], ppk, name)] = p['start_s']
                 prev_end = None
                 for k, m in zip(nums, mo):
                     url = '/mps/vod/%s/%d/%s/%d.%s' % (d['name'], ppk, name, k, ext)
@@ -235,14 +236,14 @@ def run(ctx):
                         ctx.violation('%s: decode time %d, previous number ended at %d' % (url, s['tfdt'], prev_end[1]), inp)
                     prev_end = (k, s['tfdt'] + s['duration'])
                     ctx.nontriv(url)
-        time_addressing(ctx, c, d, reps, init_dd, 6 if ctx.quick() else 40)
+        time_addressing(ctx, c, d, reps, init_dd, 6 if ctx.quick() else 40, pstart=pstart)
     ctx.oblige('correspondence:HTTP(mps manifests)-vs-MpsModel.vod_periods/live_periods', ok_list)
     ctx.oblige('correspondence:HTTP(mps segments)-vs-MpsModel.mps_number', ok_num)
     witness(ctx, env, c, reps)
     env.close()
 
 
-def time_addressing(ctx, c, d, reps, init_dd, limit, report_overrun=True):
+def time_addressing(ctx, c, d, reps, init_dd, limit, report_overrun=True, pstart=None):
     """the static manifest with SegmentTimeline addressing: every $Time$ URL it spells out is fetched and must carry the
     advertised t and d; the k-th entry of a Representation must be the very segment the number route serves as
     start_number + k - 1 (same payload, same decode time), which the model decides (MpsModel.mps_number)"""
@@ -262,6 +263,14 @@ def time_addressing(ctx, c, d, reps, init_dd, limit, report_overrun=True):
         if name not in reps:
             continue
         rep, ctype = reps[name]
+        # does the Period's source offset fall in the SECOND half of a source segment?  Then the number route starts from the
+        # next segment (nearest start) while the time route looks up the segment CONTAINING offset + t: one segment earlier
+        off, acc, second_half = (pstart or {}).get(base, 0) * rep['ts'], 0, False
+        for dur in rep['durs']:
+            if acc <= off < acc + dur:
+                second_half = 2 * (off - acc) >= dur
+                break
+            acc += dur
         idx = list(range(len(entries)))
         if len(idx) > limit:
             idx = idx[:limit // 2] + idx[-(limit - limit // 2):]
@@ -281,7 +290,8 @@ def time_addressing(ctx, c, d, reps, init_dd, limit, report_overrun=True):
                 # (source segments - offset) name media no route serves
                 ctx.violation('%s (timeline entry %d of %d, t=%d) is advertised but the source ends before it: the time route answers %d, '
                               'the number route %d' % (url, k + 1, len(entries), info['t'], rr.status_code, rn.status_code),
-                              inp, key='mps-vod-timeline-overrun' if rr.status_code == 404 else None)
+                              inp, key='mps-time-at-media-end-500' if rr.status_code >= 500 and k == len(rep['durs']) else
+                              'mps-vod-timeline-overrun' if rr.status_code in (200, 404) else None)
                 continue
             if rr.status_code != 200:
                 ctx.violation('%s (timeline entry %d of %d, t=%d d=%d) answers %d, number %d of the Period answers 200' % (
@@ -305,7 +315,8 @@ def time_addressing(ctx, c, d, reps, init_dd, limit, report_overrun=True):
             m2 = [b.payload for b in sn['root'].children if b.type == b'mdat']
             if m1 != m2 or (sn['tfdt'], sn['seq']) != (s['tfdt'], s['seq']):
                 ctx.violation('%s and number %d of the same Period differ (decode time %s / %s, sequence %s / %s, payload %s)' % (
-                    url, rep['start_number'] + k, s['tfdt'], sn['tfdt'], s['seq'], sn['seq'], 'same' if m1 == m2 else 'differs'), inp)
+                    url, rep['start_number'] + k, s['tfdt'], sn['tfdt'], s['seq'], sn['seq'], 'same' if m1 == m2 else 'differs'), inp,
+                    key='mps-time-route-containing-vs-nearest' if second_half and s['seq'] == sn['seq'] - 1 and s['tfdt'] == sn['tfdt'] else None)
                 continue
             ctx.nontriv(url)
 
@@ -325,13 +336,14 @@ def time_route_suite(ctx, ndefs, limit):
     for di in range(ndefs):
         d = gen_def(ctx.rng, 900 + di)
         pks = env.add_mps(d['name'], d['periods'])
-        init_dd = {}
+        init_dd, pstart = {}, {}
         for p, ppk in zip(d['periods'], pks):
             for name in [VIDEO[p['stream']]] + ([AUDIO[p['stream']]] if len(p['tracks']) > 1 else []):
                 ri = c.get('/mps/vod/%s/%d/%s/init.%s' % (d['name'], ppk, name, seghttp.EXT[reps[name][1]]))
                 if ri.status_code == 200:
                     init_dd['/mps/vod/%s/%d/%s' % (d['name'], ppk, name)] = boxwalk.trex_default_duration(boxwalk.Root(ri.data))
-        time_addressing(ctx, c, d, reps, init_dd, limit, report_overrun=False)
+                pstart['/mps/vod/%s/%d/%s' % (d['name'], ppk, name)] = p['start_s']
+        time_addressing(ctx, c, d, reps, init_dd, limit, report_overrun=False, pstart=pstart)
     env.close()
 
 def check_contiguous(ctx, listed, inp):
